@@ -5,10 +5,10 @@
 set -u
 PATCH=$(realpath "$1"); shift
 M=/var/tmp/dm-$$
-rm -rf $M; mkdir -p $M
-rsync -a --exclude target --exclude .git /repo/ $M/
-cd $M && git init -q . && git add -A >/dev/null && git -c user.email=a@b -c user.name=x commit -qm base
-if ! git apply "$PATCH"; then echo "PATCH DOES NOT APPLY"; rm -rf $M; exit 3; fi
+rm -rf $M
+git -C /repo worktree add -q --detach $M HEAD || exit 3
+cd $M
+if ! git apply "$PATCH"; then echo "PATCH DOES NOT APPLY"; cd /; git -C /repo worktree remove --force $M; exit 3; fi
 echo "== repo test suite on mutant"
 CARGO_TARGET_DIR=/var/tmp/dm-target cargo test --workspace --offline --no-fail-fast 2>&1 | grep -E "^test result|FAILED|failed|error(\[|:)" | sort | uniq -c | head -20
 for c in "$@"; do
@@ -16,4 +16,5 @@ for c in "$@"; do
   (cd /verif && VERIF_REPO=$M timeout 1200 ./check $c --tier quick 2>&1 | grep -E "VIOLATION|KNOWN-FINDING|MACHINERY|^C[0-9]+ quick" | cut -c1-300 | head -12; echo "exit=${PIPESTATUS[0]}")
 done
 TAG=$(python3 -c "import hashlib;print(hashlib.sha1('$M'.encode()).hexdigest()[:8])")
+cd /; git -C /repo worktree remove --force $M; git -C /repo worktree prune
 rm -rf $M /verif/.build/*-$TAG /verif/.build/hx-$TAG
